@@ -189,6 +189,7 @@ func classifyIndex(l LE, sVal int64) (lin3, string, bool) {
 			out.c += k * sVal
 		case loopPhiAtoms[a]:
 			out.a += k
+			out.c += k * loopPhiInit[a]
 		default:
 			return out, a, false
 		}
@@ -197,6 +198,7 @@ func classifyIndex(l LE, sVal int64) (lin3, string, bool) {
 }
 
 var loopPhiAtoms = map[string]bool{}
+var loopPhiInit = map[string]int64{}
 var startPhiAtoms = map[string][]int64{}
 
 func notePhis(e *Env) {
@@ -221,6 +223,11 @@ func notePhis(e *Env) {
 			t := e.Term(ph)
 			if step {
 				loopPhiAtoms[t] = true
+				// the counter's first value: 0 for `for i := 0; …`, -1 for the hidden counter of `for i := range x` (whose body
+				// uses counter+1); positions are expressed in the iteration number i = counter - first value
+				if len(consts) == 1 {
+					loopPhiInit[t] = consts[0]
+				}
 			} else if len(consts) == len(ph.Edges) && len(consts) == 2 {
 				startPhiAtoms[t] = consts
 			}
@@ -590,7 +597,7 @@ func parserTables(c *Ctx, fn *ssa.Function) (map[string]roleTable, []string) {
 							}
 						}
 					}
-					if sc := x.Call.StaticCallee(); sc != nil && len(sc.Blocks) > 0 && PkgOf(sc) == "parsers" && depth < 3 && sc.Signature.Recv() != nil {
+					if sc := x.Call.StaticCallee(); sc != nil && len(sc.Blocks) > 0 && PkgOf(sc) == "parsers" && depth < 3 && sc != e.Fn {
 						visit(e.Sub(x, sc), depth+1)
 					}
 				}
